@@ -270,3 +270,87 @@ func VerifC12_MockProviderArguments() {
 	}()
 	zzverif.Reach("mock-arguments")
 }
+
+// A provider type that shares its bare type name with the Redis and MongoDB
+// mocks (redis.MockHandler, mongodb.MockHandler) but has its own method table:
+// one granted method (Get) among 40 methods that are not granted. Whatever was
+// called on another provider before, a name reaches only the method of that
+// name on the object it is called on.
+type MockHandler struct{ gets int }
+
+func (p *MockHandler) Get(k string) (interface{}, error) { p.gets++; return k, nil }
+func (p *MockHandler) Fa(k string) (interface{}, error) { zzverif.Fail("off-list-method-invoked Fa"); return nil, nil }
+func (p *MockHandler) Ha(k string) (interface{}, error) { zzverif.Fail("off-list-method-invoked Ha"); return nil, nil }
+func (p *MockHandler) Fb(k string) (interface{}, error) { zzverif.Fail("off-list-method-invoked Fb"); return nil, nil }
+func (p *MockHandler) Hb(k string) (interface{}, error) { zzverif.Fail("off-list-method-invoked Hb"); return nil, nil }
+func (p *MockHandler) Fc(k string) (interface{}, error) { zzverif.Fail("off-list-method-invoked Fc"); return nil, nil }
+func (p *MockHandler) Hc(k string) (interface{}, error) { zzverif.Fail("off-list-method-invoked Hc"); return nil, nil }
+func (p *MockHandler) Fd(k string) (interface{}, error) { zzverif.Fail("off-list-method-invoked Fd"); return nil, nil }
+func (p *MockHandler) Hd(k string) (interface{}, error) { zzverif.Fail("off-list-method-invoked Hd"); return nil, nil }
+func (p *MockHandler) Fe(k string) (interface{}, error) { zzverif.Fail("off-list-method-invoked Fe"); return nil, nil }
+func (p *MockHandler) He(k string) (interface{}, error) { zzverif.Fail("off-list-method-invoked He"); return nil, nil }
+func (p *MockHandler) Ff(k string) (interface{}, error) { zzverif.Fail("off-list-method-invoked Ff"); return nil, nil }
+func (p *MockHandler) Hf(k string) (interface{}, error) { zzverif.Fail("off-list-method-invoked Hf"); return nil, nil }
+func (p *MockHandler) Fg(k string) (interface{}, error) { zzverif.Fail("off-list-method-invoked Fg"); return nil, nil }
+func (p *MockHandler) Hg(k string) (interface{}, error) { zzverif.Fail("off-list-method-invoked Hg"); return nil, nil }
+func (p *MockHandler) Fh(k string) (interface{}, error) { zzverif.Fail("off-list-method-invoked Fh"); return nil, nil }
+func (p *MockHandler) Hh(k string) (interface{}, error) { zzverif.Fail("off-list-method-invoked Hh"); return nil, nil }
+func (p *MockHandler) Fi(k string) (interface{}, error) { zzverif.Fail("off-list-method-invoked Fi"); return nil, nil }
+func (p *MockHandler) Hi(k string) (interface{}, error) { zzverif.Fail("off-list-method-invoked Hi"); return nil, nil }
+func (p *MockHandler) Fj(k string) (interface{}, error) { zzverif.Fail("off-list-method-invoked Fj"); return nil, nil }
+func (p *MockHandler) Hj(k string) (interface{}, error) { zzverif.Fail("off-list-method-invoked Hj"); return nil, nil }
+func (p *MockHandler) Fk(k string) (interface{}, error) { zzverif.Fail("off-list-method-invoked Fk"); return nil, nil }
+func (p *MockHandler) Hk(k string) (interface{}, error) { zzverif.Fail("off-list-method-invoked Hk"); return nil, nil }
+func (p *MockHandler) Fl(k string) (interface{}, error) { zzverif.Fail("off-list-method-invoked Fl"); return nil, nil }
+func (p *MockHandler) Hl(k string) (interface{}, error) { zzverif.Fail("off-list-method-invoked Hl"); return nil, nil }
+func (p *MockHandler) Fm(k string) (interface{}, error) { zzverif.Fail("off-list-method-invoked Fm"); return nil, nil }
+func (p *MockHandler) Hm(k string) (interface{}, error) { zzverif.Fail("off-list-method-invoked Hm"); return nil, nil }
+func (p *MockHandler) Fn(k string) (interface{}, error) { zzverif.Fail("off-list-method-invoked Fn"); return nil, nil }
+func (p *MockHandler) Hn(k string) (interface{}, error) { zzverif.Fail("off-list-method-invoked Hn"); return nil, nil }
+func (p *MockHandler) Fo(k string) (interface{}, error) { zzverif.Fail("off-list-method-invoked Fo"); return nil, nil }
+func (p *MockHandler) Ho(k string) (interface{}, error) { zzverif.Fail("off-list-method-invoked Ho"); return nil, nil }
+func (p *MockHandler) Fp(k string) (interface{}, error) { zzverif.Fail("off-list-method-invoked Fp"); return nil, nil }
+func (p *MockHandler) Hp(k string) (interface{}, error) { zzverif.Fail("off-list-method-invoked Hp"); return nil, nil }
+func (p *MockHandler) Fq(k string) (interface{}, error) { zzverif.Fail("off-list-method-invoked Fq"); return nil, nil }
+func (p *MockHandler) Hq(k string) (interface{}, error) { zzverif.Fail("off-list-method-invoked Hq"); return nil, nil }
+func (p *MockHandler) Fr(k string) (interface{}, error) { zzverif.Fail("off-list-method-invoked Fr"); return nil, nil }
+func (p *MockHandler) Hr(k string) (interface{}, error) { zzverif.Fail("off-list-method-invoked Hr"); return nil, nil }
+func (p *MockHandler) Fs(k string) (interface{}, error) { zzverif.Fail("off-list-method-invoked Fs"); return nil, nil }
+func (p *MockHandler) Hs(k string) (interface{}, error) { zzverif.Fail("off-list-method-invoked Hs"); return nil, nil }
+func (p *MockHandler) Ft(k string) (interface{}, error) { zzverif.Fail("off-list-method-invoked Ft"); return nil, nil }
+func (p *MockHandler) Ht(k string) (interface{}, error) { zzverif.Fail("off-list-method-invoked Ht"); return nil, nil }
+
+func VerifC12_NameAfterOtherProvider() {
+	names := []string{"Get", "get", "Ping", "Keys", "Del", "Exists", "Incr", "Ttl"}
+	first := names[zzverif.Choice("first call", len(names))]
+	second := names[zzverif.Choice("second call", 3)]
+	r := redis.NewMockHandler()
+	mine := &MockHandler{}
+	guarded := func(what string, f func()) {
+		defer func() {
+			if rec := recover(); rec != nil {
+				zzverif.Fail("provider-call-panics " + what)
+			}
+		}()
+		f()
+	}
+	if zzverif.Bool("redis first") {
+		guarded("redis."+first, func() { interpreter.CallMethod(r, first, "k") })
+		var v interface{}
+		var err error
+		guarded("mine."+second+" after redis."+first, func() { v, err = interpreter.CallMethod(mine, second, "k") })
+		if second == "Ping" {
+			zzverif.Assert(err != nil && mine.gets == 0, "a name the provider has no method for reached a method after redis."+first)
+		} else {
+			zzverif.Assert(err == nil && v == interface{}("k") && mine.gets == 1, "mine."+second+" did not reach Get after redis."+first)
+		}
+	} else {
+		guarded("mine."+second, func() { interpreter.CallMethod(mine, second, "k") })
+		r.Set("k", "v")
+		var v interface{}
+		var err error
+		guarded("redis.Get after mine."+second, func() { v, err = interpreter.CallMethod(r, "Get", "k") })
+		zzverif.Assert(err == nil && v == interface{}("v"), "redis.Get did not reach Get after mine."+second)
+	}
+	zzverif.Reach("name-after-other-provider")
+}
